@@ -588,3 +588,65 @@ def simplifyFunc (opts : Opts) (f : Func String) : Func R :=
   { name := f.name, params := f.params.map fun (r, t) => (R.user r, t), res := f.res, body := body3 }
 
 end MirVerif.Simplify
+
+/-! ## `func_alloca_features` (mir.c): what `process_inlines` learns about the allocas of a
+simplified function, and the stack bracket it must put around an inlined body -/
+namespace MirVerif.Simplify
+open MirVerif.MirCore
+
+def insnOpds : SInsn → List (Opd R)
+  | .bin _ _ d x y | .ovf _ _ d x y => [d, x, y]
+  | .mov d s | .ext _ _ d s | .neg _ d s => [d, s]
+  | .bcmp _ _ _ x y => [x, y]
+  | .bt _ _ _ x | .switch x _ => [x]
+  | .alloca d n => [d, n]
+  | .call _ _ res args => res ++ args
+  | .ret vs => vs
+  | .label _ | .jmp _ | .bo _ _ _ => []
+
+def opdMentions (r : R) : Opd R → Bool
+  | .reg x => x == r
+  | .imm _ => false
+  | .mem m => m.base == some r || m.index == some r
+
+structure AllocaFeat where
+  /-- result operand and constant size of the "top alloca": the first alloca, in front of every label
+  and call, whose size is an integer constant (`alloca r, c` or `mov t, c; alloca r, t`) -/
+  top : Option (Opd R × W64) := none
+  /-- some later instruction mentions the top alloca's result register (or the result is not a register) -/
+  topUsed : Bool := false
+  /-- there is an alloca that is not the top one (variable size, or after a label / call / the top one):
+  an inlined copy of the function must be bracketed by `bstart`/`bend` -/
+  nonTop : Bool := false
+deriving Repr
+
+/-- the scan, instruction by instruction; `prev` is the instruction in front of the current one -/
+def allocaScan (setTop : Bool) (prev : Option SInsn) (acc : AllocaFeat) : List SInsn → AllocaFeat
+  | [] => acc
+  | i :: tl =>
+    let setTop := if (isLabel i || (match i with | .call .. => true | _ => false)) then false else setTop
+    match i with
+    | .alloca d n =>
+      let sizeOp : Opd R :=
+        match n, prev with
+        | .reg r, some (.mov (.reg r') s) => if r == r' then s else n
+        | _, _ => n
+      match sizeOp, setTop with
+      | .imm c, true =>
+        allocaScan false (some i) { acc with top := some (d, c), topUsed := acc.topUsed || !(isReg d) } tl
+      | _, _ =>
+        if acc.top.isNone then { acc with nonTop := true }      -- `return NULL` in the middle of the scan
+        else allocaScan setTop (some i) { acc with nonTop := true } tl
+    | _ =>
+      let used := match acc.top with
+        | some (.reg r, _) => acc.topUsed || (insnOpds i).any (opdMentions r)
+        | _ => acc.topUsed
+      allocaScan setTop (some i) { acc with topUsed := used } tl
+
+def allocaFeatures (body : List SInsn) : AllocaFeat := allocaScan true none {} body
+
+/-- the stack bracket of `process_inlines`: `bstart t; <inlined body>; bend t` exactly when the callee
+has an alloca that is not its top one (the number of `bstart`s the link must add for one inlined call) -/
+def inlineBrackets (callee : List SInsn) : Nat := if (allocaFeatures callee).nonTop then 1 else 0
+
+end MirVerif.Simplify
